@@ -58,7 +58,18 @@ def impl_case(args) -> dict:
     PROJ[0] = proj
     try:
         files = gen_project(rng, rng.choice([4, 6, 8, 10]), dup_share=0.5)
-        write_project(proj, files, DEFAULT_CFG)
+        # the project's configuration changes what per-file rules report, so that a run which loses it is visible
+        cfg0 = DEFAULT_CFG + rng.choice(["", "nesting:\n  max_nesting_depth: 2\nmagic-numbers:\n  allowed_numbers: [0, 1]\n  max_small_integer: 1\n"])
+        write_project(proj, files, cfg0)
+        # root markers: the project root is where the highest-priority marker is (.git, then .thailint.yaml/.json, then
+        # pyproject.toml), not the nearest directory with any marker - a sub-package with its own pyproject.toml is not a root
+        layout = rng.choice(["plain", "git", "nested-pyproject", "git+nested-pyproject", "git+nested-pyproject"])
+        if "git" in layout:
+            (proj / ".git").mkdir()
+        if "nested-pyproject" in layout:
+            for d in sorted({r.split("/")[0] for r, _ in files if "/" in r})[: rng.choice([1, 2])]:
+                (proj / d / "pyproject.toml").write_text('[project]\nname = "sub-package"\nversion = "0.1"\n')
+        out["layout"] = layout
         rels = [rel for rel, _ in files]
         fid = {r: i for i, r in enumerate(rels)}
         order = [str(f.relative_to(proj)) for f in collect_files(proj, True)]
@@ -178,7 +189,10 @@ def run(tier: str, seed: int, st: core.ProofStatus) -> core.Result:
         res.evaluations += 1
         d = im["dir"]
         m = model_cli([], [d["order"]])
-        if d["impl"] != m:
+        # (the order in which a cross-file rule lists its findings is not part of the property: multisets are compared)
+        if d["impl"] != m and sorted(d["impl"]) == sorted(m):
+            res.bump("order of findings", "directory run lists the same findings in another order than the model")
+        if sorted(d["impl"]) != sorted(m):
             res.disagreements.append(core.Disagreement(case={"index": i, "kind": "directory", "order": d["order"]}, impl=d["impl"][:8], model=m[:8], spec=None,
                                                        property_fails=sorted(d["impl"]) != sorted(m), note="lint_directory differs from the model (per-file results in discovery order + finalize)"))
         if not d["union_ok"]:
@@ -190,7 +204,7 @@ def run(tier: str, seed: int, st: core.ProofStatus) -> core.Result:
             res.evaluations += 1
             res.bump("subset_size", len(s["files"]))
             m = model_cli(s["files"], [])
-            if s["impl"] != m:
+            if sorted(s["impl"]) != sorted(m):
                 res.disagreements.append(core.Disagreement(case={"index": i, "kind": "subset", "files": s["files"]}, impl=s["impl"][:8], model=m[:8], spec=None,
                                                            property_fails=True, note="lint_files on an explicit subset differs from the union of per-file results + finalize on exactly those files"))
             if len(s["impl"]) >= 2:
@@ -208,6 +222,7 @@ def run(tier: str, seed: int, st: core.ProofStatus) -> core.Result:
                                                            note=f"`thailint {mx['cmd']}` with file and directory arguments: {len(mx['impl'] or [])} violations (exit {mx['exit']}), model of one pass over the union {len(exp)}"))
             if len(exp) >= 2:
                 res.nontrivial.add(core.canon(["mixed", i, mx["cmd"], mx["files"], mx["dirs"]]))
+        res.bump("root markers", im.get("layout", "plain"))
         for a in im["api"]:
             res.evaluations += 1
             res.bump("api_cmd", a["cmd"])
